@@ -47,6 +47,27 @@ impl<V> HashTable<ZobristHash, V> {
     }
 }
 
+/// Test-only public handle on the private table for the verification harness in /verif.
+#[cfg(inkayaku_verif)]
+pub mod verif_table {
+    use inkayaku_board::constants::ZobristHash;
+
+    use super::HashTable;
+
+    pub struct VerifTable(HashTable<ZobristHash, u64>);
+
+    impl VerifTable {
+        pub fn new(capacity: usize) -> Self { Self(HashTable::new(capacity)) }
+        pub fn clear(&mut self) { self.0.clear() }
+        pub fn put(&mut self, key: ZobristHash, value: u64) { self.0.put(key, value) }
+        pub fn get(&self, key: ZobristHash) -> Option<u64> { self.0.get(key).copied() }
+        pub fn len(&self) -> usize { self.0.len() }
+        pub fn load_factor(&self) -> f32 { self.0.load_factor() }
+        /// internal consistency as seen from inside: (queue length, map length)
+        pub fn internal_lens(&self) -> (usize, usize) { (self.0.entry_list.len(), self.0.entry_map.len()) }
+    }
+}
+
 // #[cfg(test)]
 // mod test {
 //     use crate::inkayaku::table::HashTable;
